@@ -408,5 +408,5 @@ func fixedC05(t *testing.T, emit func(sc interface{}, o *Outcome)) {
 }
 
 func TestC05(t *testing.T) {
-	drive(t, &PropDef{ID: "C05", Gen: genC05, Decode: decodeInto[C05Scenario], Run: runC05, Checks: 300, Fixed: fixedC05, FixedAllWorkers: true})
+	drive(t, &PropDef{ID: "C05", Gen: genC05, Decode: decodeInto[C05Scenario], Run: runC05, Checks: 300, Fixed: fixedC05, FixedAllWorkers: true, CrashCapture: true, CrashCaptureIf: func(sc interface{}) bool { c, ok := sc.(*C05Scenario); return ok && (c.Sys != nil || c.Conn) }})
 }
